@@ -17,36 +17,36 @@ CHECKS = {
  "C13": ("Coq proof (temp path contains no ../ and is relative; refutation witnesses for non-canonical shapes) + T1 conformance of FinalizePaths/createDirs/executeCommand + T2 differential on a path grammar + T3 one-task workflows per output-path shape",
          "Theorems over all path strings for the encoding; skeleton conformance ties the rename source/target to the code; real workflows place a file through {o:..} for every shape of the grammar (plain, new sub-directories, parent-relative, absolute, place-holder-like segments) and check the property statement directly.",
          "7 C13", ""),
- "C01": ("Coq proof of an invariant of the TaskFS transition system over all schedules / kill instants / failure modes + T1 skeleton conformance of Task.Execute, FinalizePaths, FileIP.Write + T3 fault enumeration (kill at every hook point, five failure kinds, random SIGKILL)",
+ "C01": ("Coq proof of an invariant of the TaskFS transition system over all schedules / kill instants / failure modes + T1 skeleton conformance of Task.Execute, FinalizePaths, FileIP.Write + T3 fault enumeration (kill at every hook point, five failure kinds, random SIGKILL) + T3-replay: the hook event log of every such run is replayed through the extracted TaskFS step function (Replay.replay_sound) and the model state it ends in is compared with the disk",
          "C01_atomic holds in every reachable state of the model for every task DAG, initial store, left-over set and schedule; the phase order it builds in is an obligation on the skeleton regenerated from the source; the real library is killed at every instrumented instant and made to fail in every modelled way, and each resulting directory is checked against the property statement.",
          "7 C01", ""),
- "C02": ("Coq proof (skip, untouched, re-run executes nothing) on TaskFS + T1 conformance + T3 with planted outputs and the history run / run-again",
+ "C02": ("Coq proof (skip, untouched, re-run executes nothing) on TaskFS + T1 conformance + T3 with planted outputs and the history run / run-again + T3-replay of both runs through the extracted TaskFS step function",
          "Theorems for every DAG, every initial store (= every subset of pre-existing outputs with arbitrary content) and every schedule; real runs with planted outputs are compared with the reference evaluator and monitored for stamps (inode, mtime, bytes) and for any command of a skipped task.",
          "7 C02", ""),
- "C03": ("Coq proof (complete run = sequential reference; any task-atomic crash state re-runs to the same result; no re-execution; leftovers refused; refutation witness for mid-finalize) + T3 crash / re-run / cleanup / re-run histories incl. nested crashes",
+ "C03": ("Coq proof (complete run = sequential reference; any task-atomic crash state re-runs to the same result; no re-execution; leftovers refused; refutation witness for mid-finalize) + T3 crash / re-run / cleanup / re-run histories incl. nested crashes + T3-replay of the crashed run, the refused re-run and the final run through the extracted TaskFS step function",
          "Convergence is proved for every crash state of every schedule under the guard finalize_atomic, whose complement is the recorded finding D2 (refuted lemma + replay); histories are enumerated on the real library over every hook point.",
          "7 C03", ""),
- "C04": ("Coq proof of history invariants of the process-network transition system (tasks = zip of in-edge histories, each emitted exactly once in order, completeness in final states, schedule independence) + T1 conformance of Process.Run / createTasks / ports + T3 random workflows vs the reference evaluator",
+ "C04": ("Coq proof of history invariants of the process-network transition system (tasks = zip of in-edge histories, each emitted exactly once in order, completeness in final states, schedule independence) + T1 conformance of Process.Run / createTasks / ports + T3 random workflows vs the reference evaluator + T3-replay of every log through the extracted NetA+Ghost and TaskFS step functions (tasks created per process, in order, compared with the reference evaluator)",
          "Theorems for every merge-free balanced acyclic configuration, every stream length, capacity >= 1 and every schedule; real workflows (incl. fan-in, parameter streams, port-less processes, streams longer than the buffers, perturbed schedules) must produce exactly the file set, bytes and task multiset of the Coq reference evaluator.",
          "7 C04", "Single-port fan-in and parameter ports are covered by the correspondence, not by the network theorems."),
- "C05": ("Coq proof (deadlock freedom for every reachable state by a blame argument, strictly decreasing potential, finished-implies-upstream-finished, completeness at the end) + T1 conformance of runProcs / Run / Sink + T3 termination and at-return snapshots",
+ "C05": ("Coq proof (deadlock freedom for every reachable state by a blame argument, strictly decreasing potential, finished-implies-upstream-finished, completeness at the end) + T1 conformance of runProcs / Run / Sink + T3 termination and at-return snapshots + T3-replay of the logs through the extracted NetA step function",
          "Deadlock freedom and termination are proved for all merge-free balanced acyclic networks with capacity >= 1 and all schedules; the program's own snapshot right after Run returns is checked for every predicted output and for leftovers on shapes with several leaves, driver processes, port-less processes, chains longer than the buffers.",
-         "7 C05", ""),
- "C08": ("Coq proof (emission order = creation order = arrival order, as an invariant over all schedules) + T1 conformance of the task queue handling + T3 recorders with inverted completion orders",
+         "7 C05 and 11.9", "C05_not_early is stated for file edges: a parameter feeder may close after its consumer has finished (C05_param_feeder_may_lag); Run waits for it through the WaitGroup of runProcs."),
+ "C08": ("Coq proof (emission order = creation order = arrival order, as an invariant over all schedules) + T1 conformance of the task queue handling + T3 recorders with inverted completion orders + T3-replay of the logs through the extracted NetA+Ghost step function",
          "For every configuration and schedule the sequence on an out-edge is the image of the created tasks in order; recorder components on real runs with later tasks finishing first must log exactly that order.",
          "7 C08", ""),
- "C09": ("Coq proof on TaskFS (failure leads to the absorbing exited state, failed outputs untouched, no dependant leaves Wait) + T1 conformance of the Fail paths + T3 failure injection incl. task-formation failures",
+ "C09": ("Coq proof on TaskFS (failure leads to the absorbing exited state, failed outputs untouched, no dependant leaves Wait) + T1 conformance of the Fail paths + T3 failure injection incl. task-formation failures + T3-replay through the extracted TaskFS step function (the failing step must be enabled where the log stops)",
          "Theorems over all DAGs and schedules; real runs with one failing task (five failure kinds, shell and Go function, concurrent siblings) and formation failures are monitored for exit status, completion marker, failed outputs, dependants and content of everything finalized.",
          "7 C09", ""),
- "C06": ("Coq proof of the token invariant of the slot machine over all capacities, core counts and schedules + T1 exact conformance of IncConcurrentTasks / DecConcurrentTasks and their position in Task.Execute + T3 overlap and token-log monitors",
+ "C06": ("Coq proof of the token invariant of the slot machine over all capacities, core counts and schedules + T1 exact conformance of IncConcurrentTasks / DecConcurrentTasks and their position in Task.Execute + T3 overlap and token-log monitors + T3-replay of the slot events through the extracted Slots step function",
          "The sum of cores of executing tasks is bounded by the capacity in every reachable state of the model, for every schedule; the model's program is the regenerated skeleton of the two slot functions; real runs with mixed core counts are monitored through command-interval overlap (a lower bound, so no false alarm) and the deposit/removal hook log.",
          "7 C06", ""),
- "C07": ("Coq proof (progress in every reachable state when cores <= cap; work conservation of acquire-only runs; refuted variant without the mutex) + T1 conformance + T3 rendezvous commands under seeded delays between token deposits, mixed-core competition, oversize rejection",
+ "C07": ("Coq proof (progress in every reachable state when cores <= cap; work conservation of acquire-only runs; refuted variant without the mutex) + T1 conformance + T3 rendezvous commands under seeded delays between token deposits, mixed-core competition, oversize rejection + T3-replay of the slot events through the extracted Slots step function",
          "Deadlock freedom and work conservation are theorems over all schedules of the slot machine; rendezvous workflows make non-simultaneous execution observable as a failure on the real library, with delays injected between the individual token deposits.",
          "7 C07", ""),
  "C16": ("Coq proof (recursive upstream collection = transitive closure on every acyclic graph; RunTo set exact and upward closed) + T1 conformance of runProcs / readyToRun / reconnect / collectUpstreamProcs / connect-disconnect + T3 with every kind of unconnected port and RunTo by name / regex / process",
          "Closure theorems for all acyclic graphs with fuel = number of processes; the readiness check precedes every process start (skeleton fact); real workflows with one unconnected port must exit non-zero without a command or a file, RunTo runs must produce exactly the closure's tasks and files as computed by the reference evaluator.",
-         "7 C16", ""),
+         "7 C16 and 11.10", "Ready.v: every started process is covered by the readiness check (theorem), the pre-repair check is refuted (D18, fixed)."),
  "C17": ("Coq proof on the FIFO producer/consumer transition system (bytes conserved for every schedule, payload and pipe capacity; computed witnesses for the one-slot deadlock, the audit-link race and the undrained re-run) + T1 conformance + T3 streaming pairs and chains with payloads around the pipe buffer and the history run / run again",
          "Byte conservation, progress (no stuck state with >= 2 slots and pipe capacity >= 1) and termination (decreasing measure) are theorems over all schedules, payloads and pipe capacities for one producer / consumer pair; n pairs and chains are covered by the correspondence runs (payload sizes 0 .. 200000, both exit orders, two-piece writes); the kernel's FIFO semantics is modelled, not verified; the audit-link race is a recorded finding (D12).",
          "7 C17", "The theorems are about one pair; several pairs sharing the slots are covered by the correspondence."),
@@ -63,11 +63,11 @@ CHECKS = {
          "Theorems over all processes, worlds and histories of the audit model; every <path>.audit.json of real runs (multi-input/output, parameters, tagging component, sub-streams, sibling outputs) is parsed and compared recursively, without IDs and times, with the lineage computed by the Coq reference evaluator, plus direct monitors (valid JSON, times, OutFiles, tags of upstream records).",
          "7 C10", "Sub-stream member tags are a recorded finding (D13)."),
  "C11": ("Coq proof (resumed histories keep records; lineage independent of execution order for well-ordered histories; token-level JSON round trip for every record tree; escape round trip for every ASCII string) + T1 conformance + T3 histories (RunTo then Run; kill at hook points or inside a write(2) to an audit file via strace fault injection, cleanup, re-run; delete downstream outputs and re-run) + T2 of the JSON model against encoding/json",
-         "Order independence and the round trips are theorems; the byte-level composition (lexer on the MarshalIndent layout) is partial and validated against Go's encoder/decoder on generated trees on every run; resumed histories on the real library must reproduce the uninterrupted lineage exactly.",
-         "7 C11", "The bytes-level round trip is proved for tokens and strings separately, not for their composition."),
+         "Order independence and the round trips are theorems; the byte-level round trip through the MarshalIndent layout is proved for record trees with 7-bit strings and the renderer / decoder are compared with Go's encoder/decoder on generated trees on every run; resumed histories on the real library must reproduce the uninterrupted lineage exactly.",
+         "7 C11 and 11.8", "The byte-level round trip (C11_roundtrip_bytes) covers record trees whose strings are 7-bit; bytes >= 0x80 are left to the correspondence with encoding/json."),
  "C12": ("Coq proof of lockset soundness over acquire/release/access traces + computed lock-discipline obligations on the skeletons regenerated from the source (tags map, audit record pointer, remote-port maps, slot deposit loop) + race-detector runs as the search for failing inputs",
          "Partial by nature: a data race is a property of the Go memory model. Proved: two accesses made under a common mutex are ordered by happens-before in every valid trace; computed on every run: all modelled accesses to the shared audit record and port maps hold the owning mutex, and task / process / tagging code touches the tags only through the guarded accessors. Fan-out / fan-in / multi-core / tagging workflows built with -race supply failing inputs (exit 66).",
-         "7 C12", "Not covered by any theorem: completeness of the access enumeration (aliasing), channel hand-offs, logging, the runtime's own synchronisation."),
+         "7 C12 and 11.11", "C12_no_writes_to_package_variables is evaluated on the table of package-level assignments regenerated from the source. Not covered by any theorem: completeness of the access enumeration (aliasing), channel hand-offs, logging, the runtime's own synchronisation."),
 }
 
 def main():
